@@ -12,6 +12,7 @@ pub mod pipe;
 
 /// Entry point of the engine binary.
 pub fn engine_main() -> ! {
+    common::set_fuzz_registry(fuzz_registry());
     let env = common::Env::from_args();
     let code = match env.property.as_str() {
         "C10" => c10::main(&env),
